@@ -6,6 +6,9 @@
 package main
 
 import (
+	"go/ast"
+	"go/token"
+	"strconv"
 	"go/types"
 	"runtime/debug"
 	"encoding/json"
@@ -283,6 +286,76 @@ func runUnit(file, unit, filterS, pkg string, attrs map[string]string, smtdir st
 			if text {
 				printFuncText(fr)
 			}
+		}
+	}
+	// contracts on constant string tables (decided by reading the composite literal in the syntax tree)
+	for _, tb := range tableContracts {
+		fr := FuncReport{Name: "table:" + tb.Var, Treatment: "full"}
+		var elems []string
+		found := false
+		dir := filepath.Dir(file)
+		for fname, af := range syntaxByFile {
+			if filepath.Dir(fname) != dir {
+				continue
+			}
+			for _, d := range af.Decls {
+				gd, ok := d.(*ast.GenDecl)
+				if !ok || gd.Tok != token.VAR {
+					continue
+				}
+				for _, sp := range gd.Specs {
+					vs, ok := sp.(*ast.ValueSpec)
+					if !ok {
+						continue
+					}
+					for i, nm := range vs.Names {
+						if nm.Name != tb.Var || i >= len(vs.Values) {
+							continue
+						}
+						if cl, ok := vs.Values[i].(*ast.CompositeLit); ok {
+							found = true
+							for _, e := range cl.Elts {
+								if bl, ok := e.(*ast.BasicLit); ok && bl.Kind == token.STRING {
+									if v, err := strconv.Unquote(bl.Value); err == nil {
+										elems = append(elems, v)
+										continue
+									}
+								}
+								elems = append(elems, "\x00<not a string literal>")
+							}
+						}
+					}
+				}
+			}
+		}
+		ob := ObReport{Name: "order[" + strings.Join(tb.Order, "<") + "]", Kind: "table", Status: "discharged", Answer: "unsat", Solver: "go/ast literal"}
+		if !found {
+			ob.Status, ob.Answer = "undischarged", "no package-level composite literal named "+tb.Var
+		} else {
+			last := -1
+			for _, want := range tb.Order {
+				idx, cnt := -1, 0
+				for i, e := range elems {
+					if e == want {
+						idx = i
+						cnt++
+					}
+				}
+				if cnt != 1 {
+					ob.Status, ob.Answer = "undischarged", fmt.Sprintf("%q occurs %d times in %s", want, cnt, tb.Var)
+					break
+				}
+				if idx <= last {
+					ob.Status, ob.Answer = "undischarged", fmt.Sprintf("%q (entry %d) does not come after the entries listed before it", want, idx)
+					break
+				}
+				last = idx
+			}
+		}
+		fr.Obligations = append(fr.Obligations, ob)
+		rep.Functions = append(rep.Functions, fr)
+		if text {
+			printFuncText(fr)
 		}
 	}
 	// contracts on method sets (decided with go/types)
